@@ -94,29 +94,30 @@ def run(ctx: Ctx) -> None:
 
     # ---- R8
     hi = repo.func(M, "Handshake.__init__")
-    table = {}
-    for n_ in walk_local(hi):
-        if isinstance(n_, ast.Assign) and (dotted(n_.targets[0]) or "").startswith("self.") and guard_atoms(n_):
-            for a in guard_atoms(n_):
-                if a[1] and a[0].startswith("name == "):
-                    table[a[0][len("name == "):]] = (dotted(n_.targets[0]), norm(n_.value))
-    want = {
-        "b'connection'": ("self.connection_tokens", "split_comma_header(value)"),
-        "b'sec-websocket-extensions'": ("self.extensions", "split_comma_header(value)"),
-        "b'sec-websocket-key'": ("self.key", "value"),
-        "b'sec-websocket-protocol'": ("self.subprotocols", "split_comma_header(value)"),
-        "b'sec-websocket-version'": ("self.version", "value"),
-        "b'upgrade'": ("self.upgrade", "value"),
-    }
-    lowered = any(isinstance(n_, ast.Assign) and dotted(n_.targets[0]) == "name" and norm(n_.value) == "name.lower()" for n_ in walk_local(hi))
-    ctx.check("C11.R8", f"{M}:Handshake.__init__", "header -> field table", table == want and lowered, f"parsed fields: {table}", hi)
+    pn_ = [a.arg for a in hi.args.args][1:]
+    hdrs_ = [(b"Connection", b"keep-alive, Upgrade"), (b"UPGRADE", b"websocket"), (b"Sec-WebSocket-Key", b"k"), (b"sec-websocket-version", b"13"), (b"Sec-Websocket-Protocol", b"a, b"), (b"Sec-WebSocket-Extensions", b"permessage-deflate"), (b"x-other", b"1")]
+    want_ = {"self.connection_tokens": ["keep-alive", "Upgrade"], "self.upgrade": b"websocket", "self.key": b"k", "self.version": b"13", "self.subprotocols": ["a", "b"], "self.extensions": ["permessage-deflate"], "self.http_version": "1.1"}
+    try:
+        out_ = eval_function(hi, {**dict(zip(pn_, [hdrs_, "1.1"])), "call:split_comma_header": lambda v: [x.strip() for x in v.decode().split(",")]}, want_env=True) if len(pn_) == 2 else {}
+        got_ = {k_: out_.get(k_) for k_ in want_}
+    except Exception as error:
+        got_ = {"not evaluable": str(error)}
+    ctx.check("C11.R8", f"{M}:Handshake.__init__", "header -> field table (names matched case-insensitively)", got_ == want_, f"parsed fields: {got_}, expected {want_}", hi)
 
     # ---- R5
     ac = repo.func(M, "Handshake.accept")
     wa = f"{M}:Handshake.accept"
     sc = [n_ for n_ in walk_local(ac) if isinstance(n_, ast.Assign) and dotted(n_.targets[0]) == "status_code"]
-    vals = {norm(s.value): sorted(guard_atoms(s)) for s in sc}
-    ok = set(vals) == {"200", "101"} and vals["101"] == [("self.http_version == '1.1'", True)] and vals["200"] == []
+    from .common import value_slice as _vs
+
+    fn_sc = _vs(ac.body, lambda c_: False, lambda c_: c_, tail=ast.Name(id="status_code", ctx=ast.Load()))
+    vals = {}
+    for ver_ in ("1.1", "2", "3"):
+        try:
+            vals[ver_] = eval_function(fn_sc, {"__lenient__": True, "self.http_version": ver_, "subprotocol": None, "self.subprotocols": None, "self.extensions": None, "self.key": None, "additional_headers": []})
+        except Exception as error:
+            vals[ver_] = f"not evaluable: {error}"
+    ok = vals == {"1.1": 101, "2": 200, "3": 200} and len(sc) >= 1
     ctx.check("C11.R5", wa, "status 101 iff http_version == 1.1 else 200", ok, f"status assignments: {vals}", ac)
     tok = [c for c in calls(ac) if call_name(c) == "generate_accept_token"]
     ok = len(tok) == 1 and norm(arg(tok[0], 0)) == "self.key" and ("self.key is not None", True) in guard_atoms(tok[0]) and "(b'sec-websocket-accept', generate_accept_token(self.key))" in norm(ac)
@@ -179,29 +180,29 @@ def run(ctx: Ctx) -> None:
     wh = f"{M}:WSStream.handle"
     arm = arm_for(hd, "event", "StreamClosed")
     ctx.need(arm is not None, f"{wh}: no StreamClosed arm")
-    codes = [n_ for n_ in ast.walk(arm) if isinstance(n_, ast.Assign) and dotted(n_.targets[0]) == "code"]
+    from .common import value_slice
+
+    def _is_disc(c_):
+        return call_name(c_) == "self.app_put" and c_.args and isinstance(c_.args[0], ast.Dict) and any(norm(v_) == "'websocket.disconnect'" for v_ in c_.args[0].values)
+
+    def _code_of(c_):
+        d_ = dict((norm(k_), v_) for k_, v_ in zip(c_.args[0].keys, c_.args[0].values))
+        return d_.get("'code'", ast.Constant(value=None))
+
+    fn = value_slice(arm.body, _is_disc, _code_of)
+    env0 = {f"ASGIWebsocketState.{s}": s for s in STATES}
+    env0.update({"CloseReason.NORMAL_CLOSURE.value": 1000, "CloseReason.ABNORMAL_CLOSURE.value": 1006, "CloseReason.NORMAL_CLOSURE": 1000, "CloseReason.ABNORMAL_CLOSURE": 1006, "self.closed": False, "self.app_put": "<callable>"})
     bad = None
-    if codes:
-        # interpret the innermost statement list that assigns `code` for every state
-        holder = None
-        for n_ in ast.walk(arm):
-            if isinstance(n_, ast.If) and any(c in list(ast.walk(n_)) for c in codes) and not any(isinstance(x, ast.If) and x is not n_ and any(c in list(ast.walk(x)) for c in codes) and all(c in list(ast.walk(x)) for c in codes) for x in ast.walk(n_)):
-                holder = n_
-        fn = ast.FunctionDef(name="code", args=ast.arguments(posonlyargs=[], args=[], kwonlyargs=[], kw_defaults=[], defaults=[]), body=[holder, ast.Return(value=ast.Name(id="code", ctx=ast.Load()))], decorator_list=[], lineno=0)
-        env0 = {f"ASGIWebsocketState.{s}": s for s in STATES}
-        env0.update({"CloseReason.NORMAL_CLOSURE.value": 1000, "CloseReason.ABNORMAL_CLOSURE.value": 1006, "CloseReason.NORMAL_CLOSURE": 1000, "CloseReason.ABNORMAL_CLOSURE": 1006})
-        for s in STATES:
-            try:
-                got = eval_function(fn, {**env0, "self.state": s})
-            except (Unknown, _Raised) as error:
-                bad = (s, f"not evaluable: {error}", None)
-                break
-            want = 1000 if s in ("CLOSED", "HTTPCLOSED") else 1006
-            if got != want:
-                bad = (s, got, want)
-                break
-    else:
-        bad = ("-", "no code assignment", None)
+    for s in STATES:
+        try:
+            got = eval_function(fn, {**env0, "__lenient__": True, "self.state": s})
+        except (Unknown, _Raised) as error:
+            bad = (s, f"not evaluable: {error}", None)
+            break
+        want = 1000 if s in ("CLOSED", "HTTPCLOSED") else 1006
+        if got != want:
+            bad = (s, got, want)
+            break
     ctx.check("C11.R7", wh, "code table: 1000 for CLOSED/HTTPCLOSED, 1006 for HANDSHAKE/CONNECTED/RESPONSE", bad is None, f"state {bad[0]}: disconnect code {bad[1]}, expected {bad[2]}" if bad else "", arm)
     # client-initiated close: the received close code must reach the disconnect message
     he = repo.func(M, "WSStream._handle_events")
